@@ -224,3 +224,23 @@ pub open spec fn template_segments(path: Seq<char>) -> Seq<Seq<char>> {
     let body = template_pieces(path);
     if body.last().len() == 0 { body.drop_last() } else { body }
 }
+
+// ---- one template segment: `{name}` is a variable, `{name:.*}` a trailing wildcard, anything without braces a
+// literal (router.rs's documentation of route templates), over the std string functions the code uses ----
+pub open spec fn braced(s: Seq<char>) -> bool { starts_with_c(s, '{') || ends_with_c(s, '}') }
+pub open spec fn inner_of(s: Seq<char>) -> Seq<char> { range_of(s, 1, (byte_len(s) - 1) as usize) }
+pub open spec fn var_name(s: Seq<char>) -> Seq<char> {
+    match first_index_of(inner_of(s), ':') { Some(i) => prefix_to(inner_of(s), i), None => inner_of(s) }
+}
+pub open spec fn var_pattern(s: Seq<char>) -> Option<Seq<char>> {
+    match first_index_of(inner_of(s), ':') { Some(i) => Some(suffix_from(inner_of(s), (i + 1) as usize)), None => None }
+}
+/// a segment with a brace that is not a well-formed variable: refused (by a panic)
+pub open spec fn malformed_segment(s: Seq<char>) -> bool {
+    braced(s) && (!starts_with_c(s, '{') || !ends_with_c(s, '}') || var_name(s).len() == 0
+        || (var_pattern(s) is Some && var_pattern(s)->Some_0 != ".*"@))
+}
+pub enum SegKind { Literal, Variable, Wildcard }
+pub open spec fn seg_kind(s: Seq<char>) -> SegKind {
+    if !braced(s) { SegKind::Literal } else if var_pattern(s) is Some { SegKind::Wildcard } else { SegKind::Variable }
+}
